@@ -12,7 +12,7 @@ def run_inputs(ck, exe, env, items, san_exe=None):
         lines.append("v%d ver %d %s %s" % (i, T, key.hex(), wv.hexs(data)))
     impl = wv.run_lines([exe], lines, env=env)
     model = wv.run_lines([mdrv], lines, env=env)
-    san = wv.run_lines([san_exe], lines, env=dict(env, ASAN_OPTIONS="detect_leaks=0:abort_on_error=1", UBSAN_OPTIONS="halt_on_error=1")) if san_exe else {}
+    san = wv.run_lines([san_exe], lines, env=dict(env, ASAN_OPTIONS="detect_leaks=0:abort_on_error=1:new_delete_type_mismatch=0", UBSAN_OPTIONS="halt_on_error=1")) if san_exe else {}
     res = []
     for i, (T, key, data, meta) in enumerate(items):
         dh, dkv = split_impl(impl.get("d%d" % i, "(no output)"))
